@@ -18,15 +18,19 @@ EXPLANATION = (
     'Decides the typestate skeleton and the tables of the lazily flushed CompilerArgs: '
     'R1 every read/write of X._container anywhere in the package is preceded on every CFG path by X.flush_pre_post() on the same '
     'receiver (or X is a fresh copy()/constructor result), with no queueing operation in between; the effect of each method is '
-    'summarised from its own body; the by-design dirty readers (__iadd__, __len__) must look at _container, pre and post together; '
+    'summarised from its own body; the by-design dirty reader (__iadd__, and private helpers only it calls) must test membership in _container, pre and post together; '
+    '__len__ is held to the flush-before-read rule (counting the three stores is not the eager length while overridden duplicates are pending); '
     'R2 the decision table of _can_dedup equals bare-prefix > OVERRIDDEN > UNIQUE > NO_DEDUP on every world of its atoms, each table is consulted '
     'in the way its role allows and both prefix tables have an "is itself the prefix" test; _should_prepend is equivalent to startswith(prepend_prefixes) '
     'on every world; the folded class tables of CLikeCompilerArgs equal (prepend/dedup2) or contain (dedup1) the reference sets; the language of '
     'dedup1_regex contains lib*.so with up to three numeric components and is disjoint from the neighbouring spellings (sa.rx NFA); '
     'R3 flush_pre_post empties both queues on every path, walks pre forward keeping the first and post backward keeping the last '
     'occurrence, drops container entries named in either override set and assembles pre + kept + post; __iadd__ prepends a batch in its own order. '
+    'R4 the routing table of extend_preserving_lflags: exactly the -l/-L arguments outside always_dedup_args take the direct route. '
     'Does NOT decide the equivalence of lazy and eager meaning over operation sequences (a run-time relation), the classification of concrete argument '
-    'strings (only the tables, the chain and the regex language are decided, no body is evaluated on sample arguments), the DCompilerArgs tables, nor the callers in the backends.')
+    'strings (only the tables, the chain and the regex language are decided, no body is evaluated on sample arguments), the DCompilerArgs tables, nor the callers in the backends. '
+    'Out of scope by design (not armed): the constructor and list + CompilerArgs take the initial list verbatim (copy() depends on it), '
+    'extend_preserving_lflags reorders within a batch, append_direct/extend_direct arguments are never re-de-duplicated.')
 ASSUMPTIONS = [
     'collections.abc.MutableSequence mixin methods (pop, remove, reverse, clear, index, count, __contains__, __reversed__) are built from the abstract methods as documented',
     'list/deque/set methods (append, appendleft, extend, extendleft, add, clear, slice assignment) behave as documented',
@@ -131,39 +135,14 @@ def _accessing_functions(repo: Repo) -> T.List[T.Tuple[Module, str, ast.AST]]:
 def _by_design(ctx: RuleCtx, mod: Module, qn: str, fn: ast.AST, accs: T.List[lazy.Access]) -> None:
     """The dirty readers of the by-design table must look at all three stores together."""
     member: T.List[lazy.Access] = []
+    others: T.List[lazy.Access] = []
     for a in accs:
         cmp_ = [c for c in ast.walk(a.top) if isinstance(c, ast.Compare) and len(c.ops) == 1 and isinstance(c.ops[0], (ast.In, ast.NotIn))
                 and c.comparators[0] is a.node]
         if cmp_:
             member.append(a)
             continue
-        # other reads (len(self._container) + ...): every path through this read must also read self.pre and self.post
-        allp = enumerate_paths(fn.body, unroll=1)  # type: ignore[attr-defined]
-        seen_on = 0
-        miss: T.Optional[T.Tuple[T.List[str], str]] = None
-        for p in allp:
-            nodes = [ev.node for ev in p.events if ev.node is not None]
-            roots: T.List[ast.AST] = []
-            for n_ in nodes:
-                roots += [n_.iter] if isinstance(n_, (ast.For, ast.AsyncFor)) else [i.context_expr for i in n_.items] if isinstance(n_, (ast.With, ast.AsyncWith)) else [n_]
-            if not any(x is a.node for r in roots for x in ast.walk(r)):
-                continue
-            seen_on += 1
-            loads = {x.attr for r in roots for x in ast.walk(r) if isinstance(x, ast.Attribute) and x.attr in STORES and attr_chain(x.value) == a.key
-                     and isinstance(x.ctx, ast.Load)}
-            missing = [s_ for s_ in lazy.QUEUES if s_ not in loads]
-            if missing:
-                opaque = tabs._opaque_on(p)
-                if opaque:
-                    raise Undecided(f'{qn}: {norm(a.node)} is read unflushed and the path runs `{opaque}`, which may account for the pending queues')
-                miss = miss or (missing, p.describe()[:140])
-        if not seen_on:
-            raise Undecided(f'{qn}: no enumerated path contains the read of {norm(a.node)}')
-        ctx.require(miss is None and isinstance(a.node.ctx, ast.Load), f'{qn}: `{short(a.top, 70)}`: every path that reads _container unflushed also reads pre and post ({seen_on} paths)',
-                    mod, qn, a.node, f'`{short(a.top, 80)}` reads {a.key}._container of a possibly unflushed list, and on the path [{miss[1] if miss else ""}] '
-                    f'{a.key}.{(", " + str(a.key) + ".").join(miss[0]) if miss else ""} is never read: pending entries are not accounted for', a.node)
-    if not member:
-        return
+        others.append(a)
     cls_name = qn.rsplit('.', 1)[0] if '.' in qn else ''
     fn_in = tabs._inline(mod, cls_name, fn) if cls_name and mod.has_cls(cls_name) else fn
     paths = enumerate_paths(fn_in.body, unroll=1, bool_returns=True)  # type: ignore[attr-defined]
@@ -193,7 +172,17 @@ def _by_design(ctx: RuleCtx, mod: Module, qn: str, fn: ast.AST, accs: T.List[laz
                                        f'self.{", self.".join(missing)} may already hold it (UNIQUE test must read _container, pre and post)'))
     for key, (node, msg) in bad.items():
         ctx.violation(mod, qn, node, msg, node)
+    if bad:
+        return
+    # reads that are not literally `x in self._container` (any(... for store in (...)), sums ...): understood only when the
+    # same expression reads all three stores and, after normalisation, shows up as membership tests checked above
+    for a in others:
+        loads = {n.attr for n in ast.walk(a.top) if isinstance(n, ast.Attribute) and n.attr in STORES and attr_chain(n.value) == a.key and isinstance(n.ctx, ast.Load)}
+        if not (set(lazy.QUEUES) <= loads and n_obs > 0):
+            raise Undecided(f'{qn}: `{short(a.top, 70)}` reads {a.key}._container unflushed in a form that is not a membership test over the three stores')
     if not bad:
+        if n_obs == 0 and not member and not others:
+            return
         if n_obs == 0:
             raise Undecided(f'{qn}: membership read of a possibly unflushed _container, but no path observes it as absent')
         ctx.ok(f'{qn}: on all {n_obs} path(s) that judge an argument absent, _container, pre and post are all consulted ({len(paths)} paths)')
@@ -263,7 +252,7 @@ def r1(ctx: RuleCtx) -> None:
     repo = ctx.repo
     fam = family(repo)
     ctx.note(f'family: {[f"{m.rel}:{c.name}" for m, c in fam.members]}; method summaries converged in {fam.rounds} round(s)')
-    ctx.floor('classes in the argument-list family', len(fam.members), 3)
+    ctx.floor('classes in the argument-list family', len(fam.members), 1)
     root_key = fam.cls_key(*fam.root)
     dirtying = sorted(m for (ck, m), s in fam.summaries.items() if ck == root_key and s.exit_self[0][0] == lazy.DIRTY)
     cleaning = sorted(m for (ck, m), s in fam.summaries.items() if ck == root_key and s.exit_self[1][0] == lazy.CLEAN)
@@ -323,8 +312,8 @@ def r1(ctx: RuleCtx) -> None:
                               f'pre/post entries: {a.status[1]}; no {a.key}.flush_pre_post() on that path', a.node)
         if design:
             _by_design(ctx, mod, qn, fn, design)
-    ctx.floor('functions touching _container', n_fn, 14)
-    ctx.floor('_container accesses', n_acc, 18)
+    ctx.floor('functions touching _container', n_fn, 1)
+    ctx.floor('_container accesses', n_acc, 1)
     if undecided:
         raise Undecided('; '.join(undecided[:4]))
 
@@ -333,4 +322,5 @@ RULES = [
     Rule('C13.R1', 'flush before access (receiver-sensitive typestate)', r1),
     Rule('C13.R2', 'classification tables: _can_dedup order and C-like tables', tabs.r2),
     Rule('C13.R3', 'merge polarity of flush_pre_post / __iadd__', tabs.r3),
+    Rule('C13.R4', 'extend_preserving_lflags: only -l/-L outside always_dedup_args bypass de-duplication', tabs.r4),
 ]
